@@ -220,3 +220,189 @@ Lemma witness_keys :
   let cs := [(false, c0); (true, c0); (true, c0); (true, c0); (false, c0); (false, c0)] in
   Forall (fun kc => call_ok (snd kc)) cs /\ rev (hist (run2 cs)) = [0; 0; 0; 0; 1024; 1024].
 Proof. split; [repeat constructor; discriminate | reflexivity]. Qed.
+
+(* ================= the proposed repair of the key-switch defect ================= *)
+(* on states whose deque is no longer than the limit the repair changes nothing (one key setting: always) *)
+Theorem stepF_same N W s c : (length (dq s) <= N)%nat -> stepF N W s c = step N W s c.
+Proof.
+  intros H. unfold stepF, trim. replace (length (dq s) - N)%nat with 0%nat by lia. simpl. destruct s; reflexivity.
+Qed.
+
+Section Fixed.
+Variable W : Z.
+Hypothesis W_pos : 0 <= W.
+
+Definition InvF (s : st) : Prop :=
+  exists L, dq s = rev (firstn L (hist s)) /\ (L <= length (hist s))%nat /\
+  (forall x, In x (hist s) -> x <= now s) /\ desc (hist s) /\
+  (forall i b, (L <= i)%nat -> nth_error (hist s) i = Some b -> b + W <= now s).
+
+Lemma InvF_init : InvF init.
+Proof.
+  exists 0%nat. unfold init; simpl. repeat split; try lia; try easy.
+  - intros i j a b _ H. destruct i; discriminate.
+  - intros i b _ H. destruct i; discriminate.
+Qed.
+
+Lemma stepF_InvF N s c : (0 < N)%nat -> call_ok c -> InvF s ->
+  InvF (stepF N W s c) /\
+  forall b, nth_error (hist (stepF N W s c)) N = Some b -> hd 0 (hist (stepF N W s c)) - b >= W.
+Proof.
+  intros HN (Hg & He & Hd) (L & Hdq & HLh & Hnow & Hde & HJ).
+  pose proof (Inv2_len s L Hdq HLh) as Hlen.
+  unfold stepF, step, trim. cbn [dq now hist slept]. rewrite Hlen.
+  destruct (le_lt_dec N L) as [Full|Short].
+  - assert (E: skipn (L - N) (dq s) = rev (firstn N (hist s))).
+    { rewrite Hdq, skipn_rev, firstn_length, firstn_firstn. f_equal. f_equal. lia. }
+    rewrite E.
+    assert (HfN: (N <= length (firstn N (hist s)))%nat) by (rewrite firstn_length; lia).
+    destruct (firstn_rev_cons_full N HN (hist s) 0 HfN) as (prev & rest & E1 & Hprev & _).
+    assert (HNd: (N <= length (prev :: rest))%nat) by (rewrite <- E1, rev_length; exact HfN).
+    destruct (wait_pop N W prev rest (now s + gap c) (eps c) HNd He) as (t' & sl & Ew & Ht & Hp & _ & _).
+    rewrite E1, Ew. cbn [dq hist now hd].
+    assert (Hprev_now: prev <= now s) by (apply Hnow; eapply nth_error_In; eauto).
+    split.
+    + exists N. cbn [dq hist now]. split; [|split; [|split; [|split]]].
+      * destruct (firstn_rev_cons_full N HN (hist s) t' HfN) as (p2 & r2 & E2 & _ & E3).
+        rewrite E1 in E2. inversion E2; subst. symmetry; exact E3.
+      * simpl. lia.
+      * intros x [Hx|Hx]; [subst; lia|specialize (Hnow x Hx); lia].
+      * apply desc_cons'; [exact Hde|]. intros x Hx. specialize (Hnow x Hx). lia.
+      * intros i b Hi Hb. destruct i as [|i]; [lia|]. simpl in Hb.
+        assert (b <= prev) by (apply (Hde (N - 1)%nat i prev b); [lia|exact Hprev|exact Hb]). lia.
+    + intros b Hb. destruct N as [|n]; [lia|]. simpl in Hb. replace (S n - 1)%nat with n in Hprev by lia.
+      rewrite Hprev in Hb. inversion Hb; subst. lia.
+  - replace (L - N)%nat with 0%nat by lia. cbn [skipn].
+    rewrite wait_nopop by lia. cbn [dq hist now hd].
+    split.
+    + exists (S L). cbn [dq hist now]. split; [|split; [|split; [|split]]].
+      * rewrite Hdq. simpl. reflexivity.
+      * simpl. lia.
+      * intros x [Hx|Hx]; [subst; lia|specialize (Hnow x Hx); lia].
+      * apply desc_cons'; [exact Hde|]. intros x Hx. specialize (Hnow x Hx). lia.
+      * intros i b Hi Hb. destruct i as [|i]; [lia|]. simpl in Hb.
+        assert (b + W <= now s) by (apply (HJ i b); [lia|exact Hb]). lia.
+    + intros b Hb. destruct N as [|n]; [lia|]. simpl in Hb.
+      assert (b + W <= now s) by (apply (HJ n b); [lia|exact Hb]). lia.
+Qed.
+End Fixed.
+
+Lemma runF_InvF cs : Forall (fun kc => call_ok (snd kc)) cs -> InvF window (runF cs).
+Proof.
+  intros H. unfold runF.
+  assert (G: forall s, InvF window s -> InvF window (fold_left rstepF cs s)).
+  { induction H as [|kc cs Hc Hcs IH]; intros s Hs; simpl; [exact Hs|]. apply IH.
+    apply (stepF_InvF window (limit (fst kc)) s (snd kc) (limit_pos _) Hc Hs). }
+  apply G, InvF_init.
+Qed.
+
+(* with the repair, in ANY history of key switches, every request starts at least one window after the request N places before it,
+   N being the limit in force for THAT request (3 without key, 10 with) *)
+Theorem repaired_rate_limit pre kc : Forall (fun x => call_ok (snd x)) (pre ++ [kc]) ->
+  let h := hist (runF (pre ++ [kc])) in
+  forall b, nth_error h (limit (fst kc)) = Some b -> hd 0 h - b >= window.
+Proof.
+  intros H h b Hb. apply Forall_app in H. destruct H as [Hpre Hkc]. inversion Hkc as [|x l Hc _]; subst.
+  unfold h, runF in *. rewrite fold_left_app in *. simpl in *.
+  apply (stepF_InvF window (limit (fst kc)) _ (snd kc) (limit_pos _) Hc (runF_InvF pre Hpre)). exact Hb.
+Qed.
+
+(* the history that defeats the shipped code (key_removed_refuted) is limited again *)
+Theorem repaired_key_removed :
+  rev (hist (runF (map (pair true) (repeat c0 10) ++ map (pair false) ({| gap := 1024; eps := 0; dur := 0 |} :: repeat c0 9))))
+  = repeat 0 10 ++ [1024; 1024; 1024; 2048; 2048; 2048; 3072; 3072; 3072; 4096].
+Proof. vm_compute. reflexivity. Qed.
+
+(* ================= the repaired function is the code (fix a09a4a0): what holds for every history of key switches ================= *)
+Lemma Inv_dq_len N W s : Inv N W s -> (length (dq s) <= N)%nat.
+Proof. intros (Hdq & _). rewrite Hdq, rev_length, firstn_length. lia. Qed.
+
+Lemma fold_rstepF_const key cs : Forall call_ok cs -> forall s, Inv (limit key) window s ->
+  fold_left rstepF (map (pair key) cs) s = fold_left (step (limit key) window) cs s.
+Proof.
+  induction 1 as [|c cs Hc Hcs IH]; intros s Hs; simpl; [reflexivity|].
+  change (rstepF s (key, c)) with (stepF (limit key) window s c).
+  rewrite stepF_same by (eapply Inv_dq_len; eauto).
+  apply IH. apply step_Inv; [apply limit_pos|exact Hc|exact Hs].
+Qed.
+
+(* with one key setting the code is the one-limit machine of the round-1 theorems (rate_limit ... sleep_iff_window_full) *)
+Theorem runF_const key cs : Forall call_ok cs -> runF (map (pair key) cs) = run (limit key) window cs.
+Proof. intros H. apply fold_rstepF_const; [exact H|apply Inv_init]. Qed.
+
+Lemma hist_stepF N W s c : hist (stepF N W s c) = hd 0 (hist (stepF N W s c)) :: hist s.
+Proof. unfold stepF, step, trim. cbn [dq now hist slept]. destruct (wait _ _ _ _ _) as [[d' t'] sl]. reflexivity. Qed.
+
+Lemma stepF_spaced M N s c : (0 < N)%nat -> (N <= M)%nat -> call_ok c -> InvF window s ->
+  spaced M window (hist s) -> spaced M window (hist (stepF N window s c)).
+Proof.
+  intros HN HNM Hc Hs Hsp.
+  destruct (stepF_InvF window N s c HN Hc Hs) as ((L & _ & _ & _ & Hde & _) & Hhead).
+  rewrite hist_stepF in *. set (t' := hd 0 (hist (stepF N window s c))) in *. simpl in Hhead.
+  intros k a b Ha Hb. destruct k as [|k]; simpl in Ha, Hb.
+  - inversion Ha; subst a.
+    assert (HlenM: (M < length (t' :: hist s))%nat) by (apply nth_error_Some; simpl; congruence).
+    destruct (nth_error (t' :: hist s) N) as [b0|] eqn:E0; [|apply nth_error_None in E0; lia].
+    assert (b <= b0) by (apply (Hde N M b0 b); [lia|exact E0|exact Hb]).
+    specialize (Hhead b0 eq_refl). lia.
+  - eapply Hsp; eauto.
+Qed.
+
+Lemma runF_InvF_spaced cs : Forall (fun kc => call_ok (snd kc)) cs ->
+  InvF window (runF cs) /\ spaced (limit true) window (hist (runF cs)).
+Proof.
+  intros H. unfold runF.
+  assert (G: forall s, InvF window s /\ spaced (limit true) window (hist s) ->
+             InvF window (fold_left rstepF cs s) /\ spaced (limit true) window (hist (fold_left rstepF cs s))).
+  { induction H as [|kc cs Hc Hcs IH]; intros s Hs; simpl; [exact Hs|]. apply IH. destruct Hs as [H1 H2]. split.
+    - apply (stepF_InvF window (limit (fst kc)) s (snd kc) (limit_pos _) Hc H1).
+    - apply stepF_spaced; first [apply limit_pos | apply limit_le_max | assumption]. }
+  apply G. split; [apply InvF_init|]. intros k a b Ha. destruct k; discriminate.
+Qed.
+
+(* ANY history, the key free to change at every call: no half-open one-second window holds more than the larger limit of starts *)
+Theorem window_limit_any_key_F cs x : Forall (fun kc => call_ok (snd kc)) cs ->
+  (count_in_window window x (hist (runF cs)) <= limit true)%nat.
+Proof.
+  intros H. destruct (runF_InvF_spaced cs H) as ((L & _ & _ & _ & Hde & _) & Hsp).
+  apply count_window; [apply limit_pos|exact Hsp|exact Hde].
+Qed.
+
+(* the exact statement: when a request starts, every one-second window that contains this start holds at most N starts so far,
+   N being the limit in force for THIS request *)
+Lemma count_window_head N W x a r : (0 < N)%nat -> desc (a :: r) ->
+  (forall b, nth_error (a :: r) N = Some b -> a - b >= W) -> in_window W x a = true ->
+  (count_in_window W x (a :: r) <= N)%nat.
+Proof.
+  intros HN Hd Hhead Ea. unfold count_in_window. simpl. rewrite Ea. simpl.
+  assert (Hold: forall y, In y (skipn (N - 1) r) -> in_window W x y = false).
+  { intros y Hy. apply (In_skipn_nth 1 Nat.lt_0_1) in Hy. destruct Hy as (k & Hk & Ek).
+    destruct (nth_error (a :: r) N) as [b|] eqn:Eb.
+    - specialize (Hhead b eq_refl).
+      assert (y <= b) by (apply (Hd N (S k) b y); [lia|exact Eb|simpl; exact Ek]).
+      unfold in_window in *. apply andb_prop in Ea. destruct Ea as [E1 E2].
+      apply Z.leb_le in E1. apply Z.ltb_lt in E2.
+      destruct (x <=? y) eqn:E3; [|reflexivity]. apply Z.leb_le in E3. lia.
+    - apply nth_error_None in Eb. simpl in Eb.
+      assert (k < length r)%nat by (apply nth_error_Some; congruence). lia. }
+  rewrite <- (firstn_skipn (N - 1) r), filter_app, (filter_none _ _ Hold), app_nil_r.
+  pose proof (filter_len_le 1 Nat.lt_0_1 (in_window W x) (firstn (N - 1) r)) as Lq.
+  rewrite firstn_length in Lq. lia.
+Qed.
+
+Theorem window_limit_current_key pre kc x : Forall (fun c => call_ok (snd c)) (pre ++ [kc]) ->
+  let h := hist (runF (pre ++ [kc])) in
+  in_window window x (hd 0 h) = true -> (count_in_window window x h <= limit (fst kc))%nat.
+Proof.
+  intros H h Hin. pose proof (repaired_rate_limit pre kc H) as Hhead. fold h in Hhead.
+  destruct (runF_InvF_spaced _ H) as ((L & _ & _ & _ & Hde & _) & _). fold h in Hde.
+  assert (E: h = hd 0 h :: hist (runF pre)).
+  { unfold h, runF. rewrite fold_left_app. simpl. apply hist_stepF. }
+  rewrite E in *. simpl in Hin, Hhead. apply count_window_head; try assumption. apply limit_pos.
+Qed.
+
+(* corollary for the history that defeated the unrepaired code: see repaired_key_removed *)
+Lemma witness_keys_F :
+  let cs := [(false, c0); (true, c0); (true, c0); (true, c0); (false, c0); (false, c0)] in
+  Forall (fun kc => call_ok (snd kc)) cs /\ rev (hist (runF cs)) = [0; 0; 0; 0; 1024; 1024].
+Proof. split; [repeat constructor; discriminate | reflexivity]. Qed.
